@@ -283,6 +283,13 @@ class Engine:
         return best
 
     def num_add(self, st, a, b, ty):
+        if b.sym is None:
+            return NumV(a.sym, a.k + b.k, ty)
+        if a.sym is None:
+            return NumV(b.sym, b.k + a.k, ty)
+        key0 = ('add',) + tuple(sorted([a.key(), b.key()], key=repr))
+        if key0 in st.vn:
+            return st.vn[key0]
         a, b = self.canon(st, a), self.canon(st, b)
         if b.sym is None:
             return NumV(a.sym, a.k + b.k, ty)
@@ -290,6 +297,7 @@ class Engine:
             return NumV(b.sym, b.k + a.k, ty)
         key = ('add',) + tuple(sorted([a.key(), b.key()], key=repr))
         if key in st.vn:
+            st.vn[key0] = st.vn[key]
             return st.vn[key]
         alo, ahi = self.bounds(st, a)
         blo, bhi = self.bounds(st, b)
@@ -307,10 +315,18 @@ class Engine:
         if alo != -INF:
             st.zone.add(self._sym(b), t.sym, b.k - alo)
         st.vn[key] = t
+        st.vn[key0] = t
         st.vn[('def', t.sym)] = ('add', a, b)
         return t
 
     def num_sub(self, st, a, b, ty):
+        if b.sym is None:
+            return NumV(a.sym, a.k - b.k, ty)
+        if a.sym == b.sym:
+            return NumV(None, a.k - b.k, ty)
+        key0 = ('sub', a.key(), b.key())
+        if key0 in st.vn:
+            return st.vn[key0]
         a, b = self.canon(st, a), self.canon(st, b)
         if b.sym is None:
             return NumV(a.sym, a.k - b.k, ty)
@@ -318,6 +334,7 @@ class Engine:
             return NumV(None, a.k - b.k, ty)
         key = ('sub', a.key(), b.key())
         if key in st.vn:
+            st.vn[key0] = st.vn[key]
             return st.vn[key]
         # bounds of a - b from the zone
         sa, sb = self._sym(a), self._sym(b)
@@ -340,6 +357,7 @@ class Engine:
         if bhi != INF:
             st.zone.add(sa, t.sym, bhi - a.k)
         st.vn[key] = t
+        st.vn[key0] = t
         st.vn[('def', t.sym)] = ('sub', a, b)
         return t
 
@@ -663,6 +681,12 @@ class Engine:
 
     # ================= constants =======================================
     def const_value(self, st, ty, j):
+        inner0 = strip_ref(ty)
+        if inner0 is not None and (isinstance(j, (bool, int)) or (isinstance(j, dict) and 'char' in j)):
+            # reference to a scalar constant (promoted `&CONST`): a pointer to a place holding it
+            root = ('H', 'c%d' % next(_uid))
+            st.store[root] = self.const_value(st, inner0, j)
+            return RefV((root, ()))
         if isinstance(j, bool):
             return BoolV(j)
         if isinstance(j, int):
@@ -1323,6 +1347,8 @@ class Engine:
         if kind == 'local':
             for h in self.hooks:
                 h('call', st, fr, bi, callee, args, t)
+            if callee.startswith(self.prog.LISTENER_IMPL) or callee.startswith('screen::Screen::'):
+                st.log(('call', callee, tuple(self.describe_value(st, a) for a in args[1:]), t['span'].get('line'), fr.func))
             m = re.match(r'^<(.*) as std::clone::Clone>::clone$', callee)
             if m and m.group(1) in self.prog.adts and self.prog.bodies[callee].span.get('exp'):
                 # #[derive(Clone)] on a crate-local type: field-wise clone = copy of the abstract value
@@ -1493,7 +1519,7 @@ class Engine:
             v = self.read(s2, v.path)
             hops += 1
         if name.endswith('::pop') and isinstance(v, CollV):
-            return v.known is not None and len(v.known) <= 8
+            return v.known is not None and len(v.known) <= 16
         if name.endswith('::next'):
             if isinstance(v, StructV) and v.ty.startswith('std::ops::Range'):
                 return False
@@ -1505,7 +1531,7 @@ class Engine:
                 if v.kind == 'coll':
                     path = v.args[0]
                     c = self.read(s2, path) if path is not None else None
-                    ok = isinstance(c, CollV) and c.known is not None and len(c.known) <= 8
+                    ok = isinstance(c, CollV) and c.known is not None and len(c.known) <= 16
                     if ok:
                         st.vn[('exact-iter', v.iid)] = True
                     return ok
